@@ -4,6 +4,7 @@ package main
 // construction, symbolic state, locations, loads and stores, obligations.
 
 import (
+	"strconv"
 	"fmt"
 	"go/token"
 	"go/types"
@@ -117,6 +118,7 @@ type VC struct {
 	macros   map[string]bool
 	noEmit       int // >0: side facts are dropped (translating the body of an fpred)
 	fpreds       map[string]*fpredDef
+	fpredUses    []*PredSpec
 	keepHeaps    map[string]bool // storages surviving the havoc in progress
 	preserveSelf map[string]bool // storages the function under verification promises to preserve
 	declLog  []string
@@ -255,6 +257,11 @@ func (vc *VC) rollback(cp checkpoint) {
 	vc.obls = vc.obls[:cp.oblLen]
 	for _, n := range vc.declLog[cp.declLen:] {
 		delete(vc.declared, n)
+		if strings.HasPrefix(n, "axiom:") {
+			if k, err := strconv.Atoi(strings.TrimPrefix(n, "axiom:")); err == nil {
+				delete(vc.axiomDone, k)
+			}
+		}
 		if strings.HasPrefix(n, "strlit:") {
 			lit := strings.TrimPrefix(n, "strlit:")
 			delete(vc.strLits, lit)
